@@ -119,6 +119,32 @@ def dtypeOf : Term → Option Nat
   | nil => Option.none
   | cons _ _ => Option.none
 
+def Dim.isUnk : Dim → Bool
+  | .unk => true
+  | _ => false
+
+/-- statically known shape (as annotation tokens). -/
+def shapeOf : Term → Option (List Dim)
+  | leaf _ ann _ => ann.shape
+  | boolc _ => Option.none
+  | app h ann args =>
+    match h with
+    | .transpose p =>
+      match args with
+      | cons t nil =>
+        match shapeOf t with
+        | some sh =>
+          if validPerm p && p.length == sh.length then some (p.map (fun i => sh.getD i Dim.unk))
+          else Option.none
+        | Option.none => Option.none
+      | _ => Option.none
+    | .cast _ => match args with | cons t nil => shapeOf t | _ => Option.none
+    | .identity => match args with | cons t nil => shapeOf t | _ => Option.none
+    | .pw _ _ => match args with | cons t nil => shapeOf t | _ => ann.shape
+    | _ => ann.shape
+  | nil => Option.none
+  | cons _ _ => Option.none
+
 /-- reference decision of C17 on dtype codes. -/
 def castRefOk (s m : Nat) : Bool := J2O.C17.castOk (J2O.C17.kindOf s) (J2O.C17.kindOf m)
 
@@ -212,6 +238,10 @@ def mkCast (to : Nat) (ann : Ann) (args : Term) : Term :=
         if proper b then
           app (.transpose p) Ann.none (cons (app (.cast to) Ann.none (cons b nil)) nil)
         else app (.cast to) ann args
+      | app .reshape _ (cons b (cons s nil)) =>
+        if proper b && proper s then
+          app .reshape Ann.none (cons (app (.cast to) Ann.none (cons b nil)) (cons s nil))
+        else app (.cast to) ann args
       | _ => app (.cast to) ann args
   | _ => app (.cast to) ann args
 
@@ -234,6 +264,11 @@ def mkPw (nm att : String) (ann : Ann) (args : Term) : Term :=
   | "Mul", "", cons (app (.pw "Sigmoid" "") _ (cons y nil)) (cons x nil) =>
     if proper x && x.erase == y.erase then app (.pw "Swish" "") Ann.none (cons x nil)
     else app (.pw nm att) ann args
+  | _, _, cons (app .reshape _ (cons b (cons s nil))) nil =>
+    if proper b && proper s then
+      app .reshape Ann.none
+        (cons (app (.pw nm att) (derivedAnn [b] (rankOf b)) (cons b nil)) (cons s nil))
+    else app (.pw nm att) ann args
   | _, _, _ =>
   match pullArgs args.toList with
   | some (p, xs, k) =>
@@ -241,6 +276,26 @@ def mkPw (nm att : String) (ann : Ann) (args : Term) : Term :=
       app (.transpose p) Ann.none (cons (app (.pw nm att) (derivedAnn xs k) (ofList xs)) nil)
     else app (.pw nm att) ann args
   | Option.none => app (.pw nm att) ann args
+
+/-- `Reshape(a, s) → a` when the (trusted) annotation of this node's output and the static shape
+    of `a` are the same token list without unknowns. -/
+def reshapeId (ann : Ann) (a s : Term) : Term :=
+  match ann.shape, shapeOf a with
+  | some so, some sa =>
+    if so = sa && so.all (fun d => !d.isUnk) then a else app .reshape ann (cons a (cons s nil))
+  | _, _ => app .reshape ann (cons a (cons s nil))
+
+/-- `Reshape(Reshape(b, s₁), s) → Reshape(b, s)`, then `reshapeId`. -/
+def mkReshape (ann : Ann) (args : Term) : Term :=
+  match args with
+  | cons a (cons s nil) =>
+    if proper a && proper s then
+      match a with
+      | app .reshape _ (cons b (cons s1 nil)) =>
+        if proper b && proper s1 then reshapeId ann b s else reshapeId ann a s
+      | _ => reshapeId ann a s
+    else app .reshape ann args
+  | _ => app .reshape ann args
 
 def sortNat (l : List Nat) : List Nat := (l.mergeSort (· ≤ ·)).eraseDups
 
@@ -263,6 +318,7 @@ def mk (h : Head) (ann : Ann) (args : Term) : Term :=
   | .castLike => mkCastLike ann args
   | .pw nm att => mkPw nm att ann args
   | .reduce nm ax => mkReduce nm ax ann args
+  | .reshape => mkReshape ann args
   | h => app h ann args
 
 /-- bottom-up normalisation. -/
